@@ -89,6 +89,9 @@ func newContractFromEchoBody(pkg *packages.Package, body *ast.BlockStmt, contrac
 		case *ast.AssignStmt:
 			parseAssignments(stmt.Rhs, pkg, &out)
 			return false
+		case *ast.ValueSpec: // var x = c.QueryParam("...")
+			parseAssignments(stmt.Values, pkg, &out)
+			return false
 		}
 		return true
 	})
